@@ -158,7 +158,16 @@ Definition do_max_frame (s : state) (m : Z) : state :=
 Definition do_pause (s : state) : state :=
   mkState (senders s) (cwin s) (iws s) (mfs s) false (wwait s) (rq s) false.
 
-(* Connection.resume_writing: self.write_ready.set() *)
+(* Connection.resume_writing: self.write_ready.set(); if not self.is_closing(): self.flush()
+   The flush writes what h2 has queued.  ASSUMPTION of this model (tied to the source by
+   C07_source_sends_flushed_at_once and checked by the correspondence, which reports any DATA frame
+   the peer receives outside a sender's run): no DATA frame of a sender is queued in h2 at that
+   moment, because every iteration of send_data hands its frame to the transport (data_to_send +
+   write) before its next suspension point.  What may be queued are frames of other code paths
+   (the RST_STREAM of reset_nowait issued while paused, ...): they are not flow-controlled, change
+   no outbound window and wake nobody, so the flush emits no chunk and leaves this state unchanged.
+   If the transport re-pauses from inside that write, that is the op list [Resume; Pause].
+   The connection is not closing here (a closing connection is outside C07). *)
 Definition do_resume (s : state) : state :=
   if wready s then s
   else mkState (map (fun x => match s_pc x with WaitWrite => with_pc x CheckWindow | _ => x end)
